@@ -701,6 +701,50 @@ func (c *Ctx) RuleFsWrite() *Result {
 
 // flagValues computes the SSA values that always equal the value of the
 // command's boolean flag `name`.
+// helperReturnsGetBool: fn's first result is, on every return, the result of GetBool(nameParam) (or false next to an error).
+func helperReturnsGetBool(fn *ssa.Function, nameParam *ssa.Parameter) bool {
+	var get ssa.Value
+	allInstrs(fn, func(in ssa.Instruction) {
+		if call, ok := in.(*ssa.Call); ok {
+			if isMeth(staticCallee(&call.Call), "github.com/spf13/pflag", "FlagSet", "GetBool") && len(call.Call.Args) == 2 && call.Call.Args[1] == ssa.Value(nameParam) {
+				get = resultValue(call, 0)
+			}
+		}
+	})
+	if get == nil {
+		return false
+	}
+	ok := true
+	allInstrs(fn, func(in ssa.Instruction) {
+		r, isRet := in.(*ssa.Return)
+		if !isRet || len(r.Results) == 0 {
+			return
+		}
+		var good func(v ssa.Value, d int) bool
+		good = func(v ssa.Value, d int) bool {
+			if v == get {
+				return true
+			}
+			if bv, isC := constBool(v); isC && !bv {
+				return true
+			}
+			if ph, isPhi := v.(*ssa.Phi); isPhi && d < 3 {
+				for _, e := range ph.Edges {
+					if !good(e, d+1) {
+						return false
+					}
+				}
+				return true
+			}
+			return false
+		}
+		if !good(r.Results[0], 0) {
+			ok = false
+		}
+	})
+	return ok
+}
+
 func (c *Ctx) flagValues(cmd *Command, name string) (map[ssa.Value]bool, ssa.Value) {
 	vals := map[ssa.Value]bool{}
 	var origin ssa.Value
@@ -716,6 +760,20 @@ func (c *Ctx) flagValues(cmd *Command, name string) (map[ssa.Value]bool, ssa.Val
 					if v := resultValue(call, 0); v != nil {
 						vals[v] = true
 						origin = v
+					}
+				}
+			}
+			// a helper of the repository that reads the named flag: readBoolFlag(cmd, "check")
+			if sf := staticFn(&call.Call); sf != nil && c.P.IsRepoFn(sf) && len(sf.Blocks) > 0 {
+				for i, a := range call.Call.Args {
+					if s, ok := constString(a); !ok || s != name || i >= len(sf.Params) {
+						continue
+					}
+					if helperReturnsGetBool(sf, sf.Params[i]) {
+						if v := resultValue(call, 0); v != nil {
+							vals[v] = true
+							origin = v
+						}
 					}
 				}
 			}
